@@ -1,6 +1,7 @@
 import Skc.Model.Config
 import Skc.Lemmas.Sbs
 import Skc.Lemmas.Layout
+import Skc.Lemmas.SeededGrid
 import Mathlib.Tactic.Linarith
 import Mathlib.Tactic.NormNum
 
@@ -98,6 +99,24 @@ theorem sbs_runs_on_valid_config {α : Type} [LinearOrder α] [Zero α]
   cases h : mapOpt (amoc cs m) (seededFrom n (2 * m) sched) with
   | none => exact absurd h hmo
   | some rows => simp
+
+/-- **C14, growth factor close to 1 (repair of finding #27)**: the repaired `make_seeded_intervals` returns
+    all integer lengths `min..max` directly when the geometric grid it would otherwise build has
+    `N = n_lengths − 1 ≥ (2·max+1)·log(max/min)` steps.  That is what rounding the grid would give: every
+    integer length in `[min, max]` lies *strictly* within 1/2 of a grid point `min·r^k`, `r = (max/min)^(1/N)`
+    (so it is produced under any rounding mode), and rounding a point of `[min, max]` cannot leave
+    `[min, max]`.  Hence every documented growth factor in (1, 2] — however close to 1 — runs without the
+    astronomically large grid, with the same candidate lengths. -/
+theorem seeded_lengths_fast_path_exact (mn mx N : ℕ) (hmn : 0 < mn) (hlt : mn < mx)
+    (hN : (2 * (mx : ℝ) + 1) * Real.log ((mx : ℝ) / mn) ≤ N) (len : ℕ) (h1 : mn ≤ len) (h2 : len ≤ mx) :
+    ∃ k, k ≤ N ∧ |(mn : ℝ) * Real.exp (Real.log ((mx : ℝ) / mn) / N) ^ k - len| < 1 / 2 :=
+  geom_grid_covers_integers mn mx N hmn hlt hN len h1 h2
+
+/-- non-vacuity of the hypothesis: `min = 2`, `max = 3`, `N = 4` steps (`7·log 1.5 ≈ 2.84 ≤ 4`) -/
+example : (2 * ((3 : ℕ) : ℝ) + 1) * Real.log (((3 : ℕ) : ℝ) / (2 : ℕ)) ≤ (4 : ℕ) := by
+  have h : Real.log ((3 : ℝ) / 2) ≤ 3 / 2 - 1 := Real.log_le_sub_one_of_pos (by norm_num)
+  push_cast
+  nlinarith
 
 /-- non-vacuity: boundary configurations inside and outside the documented domain -/
 example : DocumentedBinseg ⟨some 0, 1 / 100, 1, 2, 2⟩ := by
